@@ -20,7 +20,7 @@ LEVEL_TEXT["C13"] = (
 
 PROPS["C13"] = {
     "gen": ["Cmplx", "SmallFft", "Consts"],
-    "lean_props": "DspVerif.Props.C13",
+    "lean_props": ["DspVerif.Props.C13", "DspVerif.Props.C13Total"],
     "harness": [{"src": "c13.cpp", "cfg": "rel",
                  "tol": {"wR": (1e-12, 0.0), "wC": (1e-12, 0.0), "wRd": (1e-12, 0.0), "wCd": (1e-12, 0.0),
                          "coh": (1e-9, 0.0), "cohd": (1e-9, 0.0), "fR": (0.0, 0.0), "fC": (0.0, 0.0)}}],
